@@ -145,6 +145,30 @@ def check_program(shard, prog, argv, choices_list, cut_sets=(), trailing=b"ab"):
                         raise Failure("c10:" + probs[0][0] + (":strict" if label == "strict-done" else ""),
                                       "input=%s chunks=%r\n%s\ntrace=%r" % (d.hex(), [c.hex() for c in chunks], probs, r),
                                       dict(replay, input=d.hex(), cuts=list(cuts)))
+            # an end() call in the middle of the input, the caller carrying on afterwards (once FAIL - also from end() - always FAIL)
+            if info.eof:
+                chunks1 = [d[j:j + 1] for j in range(n)]
+                for k in sorted(set([1, n // 2, n - 1])):
+                    if not (0 < k < n):
+                        continue
+                    try:
+                        want2, _ = trace.am_calls(m, chunks1, call_end=True, indirect=True, end_after=k)
+                    except (am_mod.Undefined, am_mod.Spin):
+                        continue
+                    sc2 = trace.script_for(chunks1, call_end=True, call_free=info.dynmem, move=True, end_after=k)
+                    rc, outp, err = b_n.run_raw(sc2)
+                    if rc != 0:
+                        raise Failure("c10:c-" + ("hang" if rc == 3 else "crash"), "driver exit %s with end() after %d bytes\n%s\n%s" % (rc, k, outp[-300:], err[-600:]),
+                                      dict(replay, input=d.hex(), end_after=k))
+                    got2 = [c for c in trace.c_calls(crun.parse_log(outp)[0]) if c.kind != "free"]
+                    shard.event("evaluations")
+                    shard.event("mid_end_runs")
+                    codes = [c.code for c in got2 if c.kind in ("feed", "end")]
+                    if FAIL in codes and any(c != FAIL for c in codes[codes.index(FAIL):]):
+                        raise Failure("c10:not-fail-after-fail", "input=%s, end() after %d bytes: result codes %r" % (d.hex(), k, codes), dict(replay, input=d.hex(), end_after=k))
+                    diff = trace.first_diff(want2, got2, with_state=True, with_off=True)
+                    if diff:
+                        raise Failure("c10:c-vs-am", "input=%s, end() after %d bytes\n%s" % (d.hex(), k, diff[1]), dict(replay, input=d.hex(), end_after=k))
             # byte-per-call specifics (schedule 0)
             rn, rs = runs_n[0], runs_s[0]
             feeds = [c for c in rn if c.kind == "feed"]
